@@ -343,8 +343,13 @@ func makeVaryHash(vary map[string]string) uint64 {
 	keys = slices.AppendSeq(keys, maps.Keys(vary))
 	slices.Sort(keys)
 	for _, k := range keys {
-		_, _ = h.Write([]byte(k))
-		_, _ = h.Write([]byte(vary[k]))
+		// Every part is prefixed with its length: without a delimiter the pairs
+		// {"X-A": "1", "X-B": "2"} and {"X-A": "1X-B2"} would hash the same bytes.
+		for _, part := range [...]string{k, vary[k]} {
+			_, _ = h.Write([]byte(strconv.Itoa(len(part))))
+			_, _ = h.Write([]byte{':'})
+			_, _ = h.Write([]byte(part))
+		}
 	}
 	return h.Sum64()
 }
